@@ -42,7 +42,7 @@ func extraTypes() []*typeDesc {
 		Node     string
 		Idents   []eqIdent
 		Features []string
-		Forms    int
+		Forms    []int // one entry per extended-info form: its number of fields
 	}
 	projInfo := func(p interface{}) interface{} {
 		var i disco.Info
@@ -52,7 +52,10 @@ func extraTypes() []*typeDesc {
 		case *disco.Info:
 			i = *x
 		}
-		o := eqInfo{Node: i.Node, Forms: len(i.Form)}
+		o := eqInfo{Node: i.Node}
+		for k := range i.Form {
+			o.Forms = append(o.Forms, i.Form[k].Len())
+		}
 		for _, id := range i.Identity {
 			o.Idents = append(o.Idents, eqIdent{id.Category, id.Type, id.Name, id.Lang})
 		}
